@@ -81,6 +81,14 @@ def addr(rnd, tab, write=False):
     else:                                                   # outside the grammar / ranges: must be rejected
         s = rnd.choice(["N7:256", "N7:1000", "N256:0", "N0:1", "N7:0/16", "N7:3/99", "B3/4096", "B3/99999", "X7:0", "Q3:1", "N7", "7:0",
                         "F8:300", "L9:0/16", "B300/1", "T4:0.XYZ", "N7:10000", "N1000:1", "F8:2560"])
+        if rnd.random() < 0.6:                              # one field of a well-formed address pushed out of its range
+            badbit, badel, badfile = rnd.choice([16, 17, 31, 99]), rnd.choice([256, 300, 999]), rnd.choice([0, 256, 999])
+            s = rnd.choice(["%s%d:%d/%d" % (rnd.choice("NB"), rnd.choice([3, 7, 10]), rnd.randint(0, 5), badbit),
+                            "S:%d/%d" % (rnd.randint(0, 63), badbit), "S:%d" % badel, "S:%d/%d" % (badel, rnd.randint(0, 15)),
+                            "%s:%d/%d" % (rnd.choice("IO"), rnd.randint(0, 20), badbit), "%s:%d" % (rnd.choice("IO"), badel),
+                            "%s%d:%d" % (rnd.choice("NFLB"), rnd.choice([7, 8, 9, 3]), badel), "%s%d:0" % (rnd.choice("NFLB"), badfile),
+                            "B%d/%d" % (rnd.choice([3, 254]), rnd.choice([4096, 5000, 9999])), "B%d/1" % badfile,
+                            "%s%d:%d.ACC" % (rnd.choice("TC"), rnd.choice([4, 5]), badel)])
         it.update({"ftype": "N", "file": 0, "elem": 0, "valid": 0})
     if write and it["valid"]:
         ty = it["ftype"]
